@@ -1,8 +1,11 @@
 package checks
 
 import (
+	"bytes"
 	"context"
 	"crypto"
+	"crypto/ecdh"
+	"crypto/ed25519"
 	"crypto/elliptic"
 	"crypto/rsa"
 	"crypto/x509"
@@ -683,6 +686,14 @@ func c12ReshapeAttribute(raw []byte, idx int, shape string) []byte {
 	return ttlv.MarshalTTLV(walk(msg))
 }
 
+func c12X25519() any {
+	k, err := ecdh.X25519().NewPrivateKey(bytes.Repeat([]byte{7}, 32))
+	if err != nil {
+		panic(err)
+	}
+	return k.PublicKey()
+}
+
 func c12Signer(c *vlib.Check, specs []respSpec) {
 	rk := rsaKey(1024, 0xC0, 0xFF, 65537)
 	ek := ecKey(elliptic.P256(), big.NewInt(0x7F))
@@ -709,6 +720,9 @@ func c12Signer(c *vlib.Check, specs []respSpec) {
 		{"ec-p521-public", kmip.ObjectTypePublicKey, pubObj(kmip.CryptographicAlgorithmEC, pkix(&ek5.PublicKey))},
 		{"symmetric-key", kmip.ObjectTypeSymmetricKey, &kmip.SymmetricKey{KeyBlock: kmip.KeyBlock{KeyFormatType: kmip.KeyFormatTypeRaw, CryptographicAlgorithm: kmip.CryptographicAlgorithmAES, CryptographicLength: 128,
 			KeyValue: &kmip.KeyValue{Plain: &kmip.PlainKeyValue{KeyMaterial: kmip.KeyMaterial{Bytes: &sym}}}}}},
+		// well-formed SPKI material of algorithms the signer does not implement
+		{"ed25519-public", kmip.ObjectTypePublicKey, pubObj(kmip.CryptographicAlgorithmEC, pkix(ed25519.NewKeyFromSeed(make([]byte, 32)).Public()))},
+		{"x25519-public", kmip.ObjectTypePublicKey, pubObj(kmip.CryptographicAlgorithmEC, pkix(c12X25519()))},
 		{"public-key-without-material", kmip.ObjectTypePublicKey, &kmip.PublicKey{KeyBlock: kmip.KeyBlock{KeyFormatType: kmip.KeyFormatTypeX_509}}},
 	}
 	algs := []kmip.CryptographicAlgorithm{kmip.CryptographicAlgorithmRSA, kmip.CryptographicAlgorithmEC, kmip.CryptographicAlgorithmECDSA}
